@@ -7,6 +7,7 @@ pub mod capture;
 pub mod mk;
 pub mod util;
 
+pub mod c06;
 pub mod c07;
 pub mod c10;
 
@@ -21,6 +22,7 @@ pub fn main(argv: &[String]) -> i32 {
   }
   let args = Args::parse(&argv[1..]);
   match argv[0].as_str() {
+    "c06" => c06::run(&args),
     "c07" => c07::run(&args),
     "c10" => c10::run(&args),
     other => {
